@@ -128,6 +128,12 @@ func init() {
 	add(word("${v:-'q'}", wPEB("v", ":-", ast.Word{wSQ("q")})))
 	add(word(`${v:-"d"}`, wPEB("v", ":-", ast.Word{wDQ(wLit("d"))})))
 	add(word("${v:-${w}}", wPEB("v", ":-", ast.Word{wPEB("w", "", nil)})))
+	add(word("${v:-`c`}", wPEB("v", ":-", ast.Word{wCS(false, simpleCmd("c"))})))
+	add(word("${v%`c`}", wPEB("v", "%", ast.Word{wCS(false, simpleCmd("c"))})))
+	add(word("${v:-$(c)}", wPEB("v", ":-", ast.Word{wCS(true, simpleCmd("c"))})))
+	add(word("${v:-a`c`b}", wPEB("v", ":-", ast.Word{wLit("a"), wCS(false, simpleCmd("c")), wLit("b")})))
+	add(word("${v:-$((1))}", wPEB("v", ":-", ast.Word{wAE(wLit("1"))})))
+	add(word("${v:-~}", wPEB("v", ":-", ast.Word{wLit("~")})))
 	add(word("${v:-$w}", wPEB("v", ":-", ast.Word{wPE("w")})))
 	add(word("$(c)", wCS(true, simpleCmd("c"))))
 	add(word("$(c d)", wCS(true, simpleCmd("c", "d"))))
@@ -220,6 +226,10 @@ func init() {
 	h3.text, h3.num = "3<<E", "3"
 	add(h3)
 	for _, t := range []string{"'q", `"q`, "${v", "$(", "`", "$((", "${", "${v:-"} {
+		add(sym{text: t, kind: kBroken})
+	}
+	// substitutions that are closed but whose content is ill-formed (the error arises in a nested parse)
+	for _, t := range []string{"`a |`", "$(a |)", "`!`", "$( ; )", "\"`a |`\"", "$(a `b |`)", "$((`;`))", "${v:-`a |`}"} {
 		add(sym{text: t, kind: kBroken})
 	}
 }
